@@ -472,7 +472,10 @@ func cmpCli(prop string, sc cliScenario, got cliOutcome, asp int) *obs.Fail {
 		if bytes.Contains([]byte(got.Problem), []byte("deadlock")) {
 			key = "goroutine-left-behind"
 		}
-		if key == "panic" || asp&aspTiming != 0 {
+		if bytes.HasPrefix([]byte(got.Problem), []byte("stuck")) {
+			key = "stuck"
+		}
+		if key != "goroutine-left-behind" || asp&aspTiming != 0 {
 			return obs.Failf(prop+"/"+name+"/"+key, "every call returns and Close leaves no goroutine behind", "%s", clipS(got.Problem))
 		}
 		return nil
